@@ -248,3 +248,131 @@ async fn lb_case(c: &J) -> J {
     let order: Vec<J> = w.order.lock().unwrap().iter().map(|(n, id)| json!([n, id])).collect();
     json!({"id": c["id"], "load": "ok", "calls": all, "invoked": order})
 }
+
+// ------------------------------------------------------------------------------------------
+// C15: rule hot reload
+async fn probe(w: &World, req: &J) -> J {
+    let (ctx, ev) = make_ctx(w, req).await;
+    let id = ctx.read().await.props().id;
+    let (tx, mut rx) = tokio::sync::mpsc::channel(4);
+    use crate::context::ContextRefOps;
+    ctx.clone().enqueue(&tx).await.unwrap();
+    let ctx = rx.recv().await.unwrap();
+    crate::process_request(ctx.clone(), w.state.clone()).await;
+    // other tasks may be running requests concurrently: pick this context's invocations by id
+    let invoked: Vec<String> = w.order.lock().unwrap().iter().filter(|x| x.1 == id).map(|x| x.0.clone()).collect();
+    json!({"invoked": invoked, "client": *ev.lock().unwrap()})
+}
+
+/// what POST /rules does with its JSON body (metrics.rs post_rules): Json<Vec<Arc<Rule>>> then set_rules
+async fn post_rules_json(w: &World, body: &str) -> Result<(), String> {
+    let rules: Vec<Arc<Rule>> = serde_json::from_str(body).map_err(|e| format!("json: {}", e))?;
+    w.state.set_rules(rules).await.map_err(|e| e.to_string())
+}
+
+/// what GET /rules returns
+async fn get_rules_json(w: &World) -> String {
+    serde_json::to_string(&*w.state.rules().await).unwrap()
+}
+
+async fn rules_case(c: &J) -> J {
+    let w = match make_world(&c["connectors"], &[]).await {
+        Ok(w) => w,
+        Err(e) => return json!({"id": c["id"], "load": "world_err", "err": e}),
+    };
+    let lists = c["lists"].as_array().unwrap();
+    let reqs = c["reqs"].as_array().unwrap();
+    let mut steps = vec![];
+    for (k, l) in lists.iter().enumerate() {
+        let body = serde_json::to_string(l).unwrap();
+        let r = if k == 0 {
+            // initial load: the configuration path
+            match rules_from_json(l) {
+                Ok(rs) => w.state.set_rules(rs).await.map_err(|e| e.to_string()),
+                Err(e) => Err(e),
+            }
+        } else {
+            post_rules_json(&w, &body).await
+        };
+        let mut probes = vec![];
+        for q in reqs {
+            probes.push(probe(&w, q).await);
+        }
+        // GET /rules, POST it back unchanged: behaviour must not change
+        let got = get_rules_json(&w).await;
+        let back = post_rules_json(&w, &got).await;
+        let mut probes2 = vec![];
+        for q in reqs {
+            probes2.push(probe(&w, q).await);
+        }
+        let n_inforce = w.state.rules().await.len();
+        steps.push(json!({"ok": r.is_ok(), "err": r.err(), "probes": probes, "roundtrip_ok": back.is_ok(), "roundtrip_err": back.err(),
+                          "probes_after_roundtrip": probes2, "n_inforce": n_inforce}));
+    }
+    json!({"id": c["id"], "load": "ok", "steps": steps})
+}
+
+/// vh rules <cases.ndjson>: {id, connectors, lists:[[rule..]..], reqs}
+pub fn rules_main(args: &[String]) {
+    let cases = read_cases(&args[0]);
+    silence_panics();
+    par_for_each(&cases, 16, |_i, c| {
+        let rt = tokio::runtime::Builder::new_current_thread().enable_all().build().unwrap();
+        let r = std::panic::catch_unwind(std::panic::AssertUnwindSafe(|| rt.block_on(rules_case(c))));
+        match r {
+            Ok(j) => out(&j),
+            Err(e) => out(&json!({"id": c["id"], "load": "panic", "err": panic_text(e)})),
+        }
+    });
+    out(&json!({"summary": true, "cases": cases.len()}));
+}
+
+/// vh rules-stress <case.json> : K request tasks (slots) decide continuously while one poster replaces the list.
+/// Every event gets a sequence number from one atomic counter taken immediately before / after the call.
+pub fn rules_stress(args: &[String]) {
+    let c: J = serde_json::from_str(&std::fs::read_to_string(&args[0]).unwrap()).unwrap();
+    silence_panics();
+    let rt = tokio::runtime::Builder::new_multi_thread().worker_threads(6).enable_all().build().unwrap();
+    rt.block_on(async {
+        let w = Arc::new(make_world(&c["connectors"], &[]).await.unwrap());
+        let lists: Vec<J> = c["lists"].as_array().unwrap().clone();
+        w.state.set_rules(rules_from_json(&lists[0]).unwrap()).await.unwrap();
+        let reqs: Vec<J> = c["reqs"].as_array().unwrap().clone();
+        let slots = c["slots"].as_u64().unwrap() as usize;
+        let per = c["per_slot"].as_u64().unwrap() as usize;
+        let log: Arc<Mutex<Vec<J>>> = Arc::new(Mutex::new(vec![]));
+        let stop = Arc::new(std::sync::atomic::AtomicBool::new(false));
+        let mut hs = vec![];
+        for s in 0..slots {
+            let (w, reqs, log) = (w.clone(), reqs.clone(), log.clone());
+            hs.push(tokio::spawn(async move {
+                for k in 0..per {
+                    let qi = (s * 7 + k * 3) % reqs.len();
+                    // the log mutex orders the events; begin is logged before the call, end after it returned
+                    log.lock().unwrap().push(json!({"ev": "req_begin", "slot": s + 1, "req": qi + 1}));
+                    let p = probe(&w, &reqs[qi]).await;
+                    let target = p["invoked"].as_array().unwrap().get(0).and_then(|x| x.as_str()).unwrap_or("none").to_string();
+                    log.lock().unwrap().push(json!({"ev": "req_end", "slot": s + 1, "req": qi + 1, "invoked": target, "client": p["client"]}));
+                    if k % 3 == 0 { tokio::task::yield_now().await; }
+                }
+            }));
+        }
+        let (w2, log2, stop2) = (w.clone(), log.clone(), stop.clone());
+        let poster = tokio::spawn(async move {
+            let mut k = 1usize;
+            while !stop2.load(Ordering::SeqCst) && k < lists.len() {
+                let body = serde_json::to_string(&lists[k]).unwrap();
+                log2.lock().unwrap().push(json!({"ev": "post_begin", "k": k + 1}));
+                let r = post_rules_json(&w2, &body).await;
+                log2.lock().unwrap().push(json!({"ev": "post_end", "k": k + 1, "ok": r.is_ok()}));
+                k += 1;
+                tokio::task::yield_now().await;
+                tokio::time::sleep(std::time::Duration::from_micros(300)).await;
+            }
+        });
+        for h in hs { h.await.unwrap(); }
+        stop.store(true, Ordering::SeqCst);
+        poster.await.unwrap();
+        for e in log.lock().unwrap().iter() { out(e); }
+    });
+}
